@@ -489,6 +489,15 @@ class Evaluator:
                 raise Unsupported("param pattern mismatch inlining " + target_id)
         return self.ev(body["value"], st2, cenv, k)
 
+    def creates_state(self, node):
+        for n in walk(node):
+            c = n.get("callee")
+            if c:
+                p = strip_generics(c["path"])
+                if p in (STACK + "new", TRACKER + "new") or p.endswith("AsInput::as_input"):
+                    return True
+        return False
+
     def has_events(self, node):
         for n in walk(node):
             c = n.get("callee")
@@ -1166,6 +1175,14 @@ class Evaluator:
             if all(not is_tracked(v) or isinstance(v, Clo) for v in vs) and all(not self.has_events(c.node) for c in clos):
                 return k(pure("call:" + base, [v for v in vs if not isinstance(v, Clo)]), st)
             return self.unm("tracked state passed to unmodelled callee " + base, loc, lambda: k(("opaque", base), st))
+        # a crate-local helper that is handed no tracked state but creates some (Stack::new / Tracker::new / as_input in a
+        # private `initial_state(..)`): its events happen here
+        tid = self.resolve_body(target)
+        if tid is not None and env.depth < self.max_depth and self.creates_state(self.bodies[tid][1]["value"]):
+            ga = gargs
+            if callee.get("inst"):
+                ga = [self._garg(env.crate, a, env.subst) for a in callee.get("inst_args", [])]
+            return self.inline(tid, ga, vs, st, env, k, loc)
         return k(pure("call:" + base, vs, None), st)
 
     def resolve_body(self, path):
